@@ -196,7 +196,17 @@ def history_case(case):
     return bad
 
 
-def history_subprocess(case):
+def history_roots(case):
+    """the single-timeout deviations of a batch, computed from the FIRST execution of a fresh
+    interpreter (the point indices are then valid for history_case, whatever state the code
+    under test keeps between executions)"""
+    name, mode = case["batch"], case["mode"]
+    active, pa, ra, _, fine = MODES[mode]
+    _, ctl = explore.execute(_run(BATCHES[name]), {}, active, pool_alts=pa, rdkit_alts=ra)
+    return [explore.dev_to_json(d) for d in explore.children(ctl, {}, 0, _cost_for(mode, 0))]
+
+
+def history_subprocess(case, func="history_case"):
     """run history_case in a fresh interpreter (no state from earlier executions)"""
     import subprocess
     import sys as _sys
@@ -205,7 +215,7 @@ def history_subprocess(case):
 
     p = subprocess.run([_sys.executable, "-c",
                         "import sys, json; sys.path.insert(0, %r); from mc import boot; boot.boot(); from checks import c11; "
-                        "print('RESULT ' + json.dumps(c11.history_case(json.loads(sys.argv[1]))))" % _V, json.dumps(case)],
+                        "print('RESULT ' + json.dumps(getattr(c11, sys.argv[2])(json.loads(sys.argv[1]))))" % _V, json.dumps(case), func],
                        capture_output=True, text=True, timeout=1800)
     for line in p.stdout.splitlines():
         if line.startswith("RESULT "):
@@ -265,14 +275,14 @@ def run(tier, seed):
         plan += [("ABC", "timeouts", 0, "inline"), ("ABC", "faults", 1, "inline"), ("AC", "zombie", 101, "inline"),
                  ("ABC", "timeouts", 0, "task"), ("EAD", "faults", 1, "inline"), ("CB", "timeouts", 0, "inline")]
     rj = [{"batch": b, "mode": m, "bound": bd, "iso": iso} for b, m, bd, iso in plan]
-    roots = pmap("checks.c11:roots_job", rj, chunk=1, seed=seed, timeout=7200)
-    # (e) first: a fault must not outlive its run.  Each history runs in a fresh interpreter.
-    hist_cases = []
-    for j, r in zip(rj, roots):
-        if j["mode"] == "timeouts" and j["iso"] == "inline":
-            for d in r["roots"]:
-                hist_cases.append({"batch": j["batch"], "mode": "timeouts", "deviations": d})
-            break
+    # (e) first: a fault must not outlive its run.  Each history runs in a fresh interpreter, and so does the
+    # execution that enumerates the single-timeout deviations (code that keeps state between executions may
+    # show different choice points in a long-lived worker - which is what this sub-check is there to find,
+    # and what the replay check of roots_job below turns into a harness error)
+    hroots = history_subprocess({"batch": plan[0][0], "mode": "timeouts"}, "history_roots")
+    if hroots and isinstance(hroots[0], dict):
+        raise HarnessError(hroots[0]["what"])
+    hist_cases = [{"batch": plan[0][0], "mode": "timeouts", "deviations": d} for d in hroots]
     rh = pmap("checks.c11:history_subprocess", hist_cases, chunk=1, seed=seed, timeout=7200)
     leaked = False
     for c, bad in zip(hist_cases, rh):
@@ -287,6 +297,7 @@ def run(tier, seed):
                         "rule": "histories [faulted run, fault-free run] in fresh interpreters; exploration skipped because state leaks between runs",
                         "samples": hist_cases[:2], "exhaustive": False}
         return res
+    roots = pmap("checks.c11:roots_job", rj, chunk=1, seed=seed, timeout=7200)
     sj = []
     info = {}
     for j, r in zip(rj, roots):
